@@ -45,6 +45,11 @@ def run(run):
     project = run.project
     f = project.fn(PIPE + ".PipelineManager.publish")
     run.note_func(f)
+    # transfers handed to an executor: their failures must come back to publish
+    pipe_funcs = [g_ for g_ in project.py_funcs() if g_.module.name.startswith(PIPE)]
+    n_exec = common.check_discarded_futures(run, "C18.R3", pipe_funcs, "a failed transfer looks like success, index.wtml is sent and the image is moved to published/")
+    if not common.discarded_futures_selfcheck():
+        run.undecided("C18.R3", None, None, "discarded-futures rule self-check failed", kind="selfcheck", construct="<futures selfcheck>")
     # procedure-like helpers of the manager (e.g. "upload one approved image") are spliced into publish
     f = inline_helpers(project, f, lambda owner, call: common.resolve_callee(project, owner, call))
     ev = sym.make_evaluator(project, PIPE, [])
@@ -293,6 +298,25 @@ def _r3(run, f, cfg, put):
                     if body_calls <= {"makedirs", "mkdir"}:
                         continue
                     swallow = h
+        # ... and the item is really transferred on every normal path: the `source` stream is handed to a library call (the copy /
+        # upload itself, not a project helper that merely inspects it) before put_item can return
+        allp = [a.arg for a in g.node.args.posonlyargs + g.node.args.args + g.node.args.kwonlyargs if a.arg not in ("self", "cls")]
+        src_params = [p_ for p_ in allp if p_ == "source"] or allp[-1:]
+        def transfers(call):
+            if common.resolve_callee(project, g, call) is not None:
+                return False
+            args = list(call.args) + [k.value for k in call.keywords]
+            return any(isinstance(a, ast.Name) and a.id in src_params for a in args)
+        xfer = {n_.id for n_ in gc.nodes for c in gc.calls_at(n_) if transfers(c)}
+        if not xfer:
+            run.undecided("C18.R3", g, None, "%s.put_item: no library call receives the source stream" % g.cls.name, kind="no-transfer-call")
+        elif gc.exit.id in gc.reachable(gc.entry.id, avoid=xfer, skip_labels=("exc",)):
+            skip = [n_ for n_ in gc.nodes if n_.kind == "return" and n_.id in gc.reachable(gc.entry.id, avoid=xfer, skip_labels=("exc",))]
+            run.violated("C18.R3", g, skip[0].ast if skip else None, "%s.put_item can return normally without transferring the item (a path from entry to exit avoids the "
+                         "copy / upload of `source`): a file left incomplete by an interrupted run is taken for sent, publish goes on to index.wtml" % g.cls.name,
+                         kind="transfer-skipped")
+        else:
+            run.holds("C18.R3", g, None, "%s.put_item transfers the source on every normal path" % g.cls.name)
         if swallow is not None:
             run.violated("C18.R3", g, swallow, "%s.put_item catches %s and returns normally: a failed store write looks like success, so publish goes on to send index.wtml "
                          "and to move the image to published/" % (g.cls.name, ast.unparse(swallow.type) if swallow.type else "everything"), kind="store-error-swallowed")
